@@ -112,28 +112,3 @@ func (fx *FnCtx) typeAssert(st *State, pc *Term, t *ssa.TypeAssert) Value {
 	out.L = append(out.L, ok)
 	return out
 }
-
-func (fx *FnCtx) makeMap(st *State, pc *Term, t *ssa.MakeMap) Value {
-	fx.fail("maps are not modelled yet")
-	return Value{}
-}
-func (fx *FnCtx) mapUpdate(st *State, pc *Term, t *ssa.MapUpdate) { fx.fail("maps are not modelled yet") }
-func (fx *FnCtx) lookup(st *State, pc *Term, t *ssa.Lookup) Value {
-	fx.fail("maps are not modelled yet")
-	return Value{}
-}
-func (fx *FnCtx) rangeInit(st *State, pc *Term, t *ssa.Range) Value {
-	fx.fail("range over map/string is not modelled yet")
-	return Value{}
-}
-func (fx *FnCtx) rangeNext(st *State, pc *Term, t *ssa.Next) Value {
-	fx.fail("range over map/string is not modelled yet")
-	return Value{}
-}
-func (fx *FnCtx) mapLen(st *State, m Value) *Term {
-	fx.fail("maps are not modelled yet")
-	return nil
-}
-func (fx *FnCtx) mapDelete(st *State, pc *Term, m, k Value, mt types.Type) {
-	fx.fail("maps are not modelled yet")
-}
